@@ -994,8 +994,10 @@ class C06(Property):
 
     def check_min_fixed(self, d0, d2):
         comps = [d0['user'], d0['pw'], d0['host'], d0['frag']] + d0['parts'] + [x for kv in d0['query'] for x in kv if x]
+        self.stats['fixed_full_checked'] = self.stats.get('fixed_full_checked', 0) + 1
         if any('%' in c for c in comps):
             return None
+        self.stats['fixed_min_checked'] = self.stats.get('fixed_min_checked', 0) + 1
         tmin = d0['tmin']
         if isinstance(tmin, dict):
             return Failure('render_raises', 'to_text(full_quote=False) raised %s' % tmin['exc'])
@@ -1024,6 +1026,9 @@ class C06(Property):
         if host and not host.startswith('[') and not (dns_lengths_ok(host) and idn_ok(host)):
             return None
         self.stats['wellformed'] = self.stats.get('wellformed', 0) + 1
+        hk = 'host:' + {0: ('name' if d0['host'] else 'none'), 4: 'ipv4', 6: 'ipv6'}.get(d0['fam'], '?') + \
+            ('' if d0['host'].isascii() else '-idn')
+        self.stats[hk] = self.stats.get(hk, 0) + 1
         d1, d2 = ch[1], ch[2]
         tfull = d0['tfull']
         if isinstance(tfull, dict):
